@@ -375,8 +375,12 @@ func (s *Stats) Check(t *testing.T, prop func(t *rapid.T)) {
 	s.mu.Lock()
 	s.last = nil
 	s.mu.Unlock()
-	rapid.Check(t, prop)
-	if t.Failed() {
+	// rapid ends a failing test with FailNow (Goexit), so promote the last
+	// recorded failure (the shrunk one) in a deferred function.
+	defer func() {
+		if !t.Failed() {
+			return
+		}
 		s.mu.Lock()
 		l := s.last
 		s.mu.Unlock()
@@ -385,7 +389,8 @@ func (s *Stats) Check(t *testing.T, prop func(t *rapid.T)) {
 		} else {
 			s.addViolation(Violation{Sig: "unrecorded", Msg: "rapid reported a failure that did not go through Report (see log)", Kind: "search", Case: json.RawMessage("null")})
 		}
-	}
+	}()
+	rapid.Check(t, prop)
 }
 
 // Guard is deferred at the top of a rapid property body: a panic that is not
